@@ -974,6 +974,11 @@ func (env *Env) evalCall(e *Expr) CV {
 	case "to32":
 		x := r.scalar(arg(0).V)
 		return CV{V: Scalar{r.fpToBits(tb.Raw("(_ to_fp 8 24) RNE", FP(32), r.toFP(x)), 32)}, T: types.Typ[types.Float32]}
+	case "iterleft":
+		// entries the (single) runtime map iterator of the function still has to deliver
+		return CV{V: Scalar{r.e.ghost(env.cur, "iter.left", BV64)}, T: it}
+	case "itermap":
+		return CV{V: Scalar{r.e.ghost(env.cur, "iter.map", BV64)}, T: types.Typ[types.Uint64]}
 	case "inpos":
 		return CV{V: Scalar{r.e.ghost(env.cur, "in.pos", BV64)}, T: it}
 	case "inlen":
